@@ -40,4 +40,12 @@ def nativeArr : List Cell → List Cell → Option Ordering
   | _ :: _, [] => some .gt
   | x :: xs, y :: ys => if x.pyEq y then nativeArr xs ys else x.native y
 
+/-- python's native comparison of the decorated `(key, i)` tuples that `dictable.sort` / `_listby` hand to `sorted()`
+(`keys2id = zip(keys, range(n))`, keys = tuples of the key cells): tuples compare by their first pair that is not `==` — the keys,
+themselves tuples (`nativeArr`; `none` = TypeError), and only for `==` keys the row numbers -/
+def nativeKeyId (a b : List Cell × Nat) : Option Ordering :=
+  match nativeArr a.1 b.1 with
+  | some .eq => some (compare a.2 b.2)
+  | r => r
+
 end Pyg
